@@ -2,5 +2,7 @@
 CLAIMS = {
  'C19': ('For every input within the bounds the library encoders/decoders (packet length all 2^32 values and all header octets, tag, radix-64 incl. line wrapping, CRC-24, scalars/time) equal short reference functions written from RFC 4880, and decode(encode(x)) == x; decided by SAT over all inputs, not sampled.',
          'byte strings <= 3 (quick) / 7 (thorough) octets; GnuPG as judge and long inputs are outside; ministl replaces libstdc++; reference functions are the trusted oracle'),
+'C12': ('For every byte string within the length bound, the parsers of untrusted input encoded so far (OpenPGP SubpacketDecode, PacketBodyExtract, PacketStringDecode, Radix64Decode; see evidence for the current list) terminate without out-of-bounds access, invalid iterator range, assert/abort or non-standard exception; decided by SAT over all byte values per length. Found and led to the repair of a 32-bit wrap-around in SubpacketDecode.',
+         'input lengths per harness as listed in evidence (<= 8..12 octets); message/key-block parsers above PacketDecode are outside; allocation failure out of scope (malloc never fails); ministl replaces libstdc++ (its iterator-range precondition is asserted where libstdc++ has UB)'),
 }
 NA = {}
